@@ -17,6 +17,8 @@
 (***************************************************************************)
 EXTENDS Integers, Sequences, FiniteSets, TLC, Geometry
 
+CONSTANT LegacyF      \* subset of {"spf_round_down" (seeded C06-1: the table-size quotient rounded down)}: TLC refutes ValidInv
+
 GetF(e, k, d) == IF k \in DOMAIN e THEN e[k] ELSE d
 
 RECURSIVE Pow2L(_)
@@ -49,7 +51,7 @@ TryLayout(T, bps, spc, ft, rds, fats) ==
    ELSE LET t0 == Sub(T, FromInt(rsvd + rds))
             t1 == Add(t0, FromInt(2 * spc))
             t2 == (spc * bps * 8) \div ft + fats
-            spf == DivSmall(Add(t1, FromInt(t2 - 1)), t2)
+            spf == DivSmall(Add(t1, FromInt(IF "spf_round_down" \in LegacyF THEN 0 ELSE t2 - 1)), t2)
             meta == Add(FromInt(rsvd + rds), MulSmall(spf, fats))
         IN IF ~Lt(meta, T) THEN [ok |-> FALSE, wrap |-> TRUE]                  \* (u32 subtraction would wrap: never reached, see NoWrap)
            ELSE LET n == DivSmall(Sub(T, meta), spc) IN
